@@ -66,30 +66,49 @@ def rule_response_routing(ctx, res):
             return isinstance(t, tuple) and t[0] == 'call' and t[1] == 'action::refresh::TableRefresh::action_id' and field_chain(strip_transparent(t[2][0])) == ['refresh']
         return (is_refresh_id(x) and is_tid_action(y)) or (is_refresh_id(y) and is_tid_action(x))
 
-    e_lookup = cond_edges(b, s.paths, lookup_hit)
-    e_refresh = cond_edges(b, s.paths, refresh_hit)
-    res.check(len(e_lookup) == 1 and len(e_refresh) == 1, 'DOM', b.path, 'found the live-search guard (lookups.get_mut(tid.action_id()) is Some) and the refresh guard (refresh.action_id() == tid.action_id())',
-              detail='%s %s' % (e_lookup, e_refresh))
-    sites = ctx.calls_in(b, ADD_NODES)
-    res.sites += len(sites)
-    for st in sites:
-        g = only_via_edge(b, st.block, e_lookup | e_refresh)
-        res.check(g, 'DOM', b.path, 'add_nodes is reached only through the live-search or the refresh guard', site=st.where, key='add_nodes-guarded')
-    for st in ctx.calls_in(b, 'action::lookup::TableLookup::recv_response'):
-        res.check(only_via_edge(b, st.block, e_lookup), 'DOM', b.path, 'recv_response is reached only through the live-search guard', site=st.where, key='recv_response-guarded')
-    res.check(len(sites) == 2, 'WHO', b.path, 'two add_nodes sites (search branch, refresh branch)', detail=str(len(sites)))
-    # the unsolicited path: no table, lookup or timer call
-    n = 0
-    okp = True
-    for p in s.complete_paths():
-        if any(lookup_hit(literal(c)) or refresh_hit(literal(c)) for c in p.conds):
-            continue
-        n += 1
+    # decision table over L = "a live search owns this action id" (lookups.get_mut / get / contains_key on tid.action_id())
+    # and R = "it is the refresh activity's id"; however the branches are nested, inverted or merged:
+    #   L            -> add_nodes, then the search's recv_response
+    #   not L, R     -> add_nodes only
+    #   neither      -> Err(UnsolicitedResponse), nothing touched
+    def classify(lit, c):
+        rel, a, b2, truth = lit
+        if rel == 'variant' and isinstance(a, tuple) and a[0] == 'call' and a[1].split('::')[-1] in ('get_mut', 'get', 'remove') and field_chain(strip_transparent(a[2][0])) == ['lookups'] and is_tid_action(a[2][1]):
+            if a[1].split('::')[-1] == 'remove':
+                raise Lost('the search is removed while routing a response')
+            return ('L', option_is_some(b2))
+        if rel == 'bool' and isinstance(a, tuple) and a[0] == 'call' and a[1].split('::')[-1] == 'contains_key' and field_chain(strip_transparent(a[2][0])) == ['lookups'] and is_tid_action(a[2][1]) and truth is not None:
+            return ('L', bool(truth))
+        if rel == 'eq' and truth is not None:
+            def is_refresh_id(t):
+                return isinstance(t, tuple) and t[0] == 'call' and t[1] == 'action::refresh::TableRefresh::action_id' and field_chain(strip_transparent(t[2][0])) == ['refresh']
+            if (is_refresh_id(a) and is_tid_action(b2)) or (is_refresh_id(b2) and is_tid_action(a)):
+                return ('R', bool(truth))
+        return None
+
+    def outcome(p):
+        added = sum(1 for e in p.effects if e[0] == 'call' and e[1] == ADD_NODES)
+        fwd = any(e[0] == 'call' and e[1] == 'action::lookup::TableLookup::recv_response' for e in p.effects)
         touched = [e[1] for e in p.effects if e[0] == 'call' and e[1] and (e[1].startswith('table::') or e[1].startswith('action::lookup') or e[1].startswith('timer::') or e[1].startswith('node::Node::local') or e[1].startswith('socket::Socket::send'))]
         err = p.ret[0] == 'agg' and agg_variant(p.ret) == 'Err' and agg_variant(p.ret[2].get('0')) == 'UnsolicitedResponse'
-        if touched or not err:
-            okp = False
-    res.check(okp and n >= 1, 'TABLE', b.path, 'a response matching neither a live search nor the refresh ends in UnsolicitedResponse with no table, search, timer or socket call (%d paths)' % n)
+        if err and not touched:
+            return 'unsolicited'
+        if added == 1 and fwd and not err:
+            return 'search'
+        if added == 1 and not fwd and not err:
+            return 'refresh'
+        return 'other: add_nodes x%d, forwarded %s, err %s' % (added, fwd, err)
+
+    try:
+        tab = lib.Table.build(s.complete_paths(), classify, outcome)
+        bad, n = tab.compare({'L': lib.BOOL, 'R': lib.BOOL}, lambda v: 'search' if v['L'] else 'refresh' if v['R'] else 'unsolicited')
+        sites = ctx.calls_in(b, ADD_NODES)
+        res.sites += len(sites)
+        res.check(not bad and len(sites) >= 1, 'TABLE', b.path, 'a response reaches the table only for a live search (add_nodes + recv_response) or the refresh activity (add_nodes); '
+                  'one matching neither ends in UnsolicitedResponse with no table, search, timer or socket call',
+                  detail='; '.join('%s -> got %s want %s' % x for x in bad[:3]), key='response-routing')
+    except Lost as e:
+        res.bad('TABLE', b.path, 'a response reaches the table only for a live search or the refresh activity', detail=str(e), key='response-routing')
     # arguments of add_nodes: responder = Node::as_good(rsp.id, source address); hearsay = the response's node list of the own family
     for p in s.paths:
         for e in p.effects:
@@ -145,7 +164,7 @@ def rule_tid_gate(ctx, res, d):
     s2 = Sym(fb)
     s2.run()
     somes = [p for p in s2.complete_paths() if agg_variant(p.ret) == 'Some']
-    ok = len(somes) >= 1 and all(find_calls(p.ret, 'try_into') for p in somes)
+    ok = len(somes) >= 1 and all(find_calls(p.ret, 'try_into') or find_calls(p.ret, 'try_from') for p in somes)
     adt = ctx.f.adts.get('transaction::TransactionID')
     fty = adt['variants'][0]['fields'][0].get('ty_norm') if adt else None
     n = ctx.f.const_value('transaction::TRANSACTION_ID_BYTES')
